@@ -414,7 +414,7 @@ func TestOpMatrixC(t *testing.T) {
 				}
 				one := om.Minimal(oc, cfg, firstCallOf(oc, i))
 				if _, _, _, p := translate(one.Wat); p != "" {
-					key := fmt.Sprintf("wat2c-panic:op=%s/%s", oc.Funcs[i].Op, oc.Funcs[i].Shape)
+					key := fmt.Sprintf("op=%s/%s@wat2c-panic", oc.Funcs[i].Op, oc.Funcs[i].ShapeClass())
 					c.Set(payload{Kind: "opmatrix", Case: one.Strip()})
 					if os.Getenv("C03_SURVEY") == "" {
 						c.Fail(key, "wat2c panics instead of translating or returning an error: %s\n%s", head(p, 300), oc.Funcs[i].Text)
@@ -546,8 +546,8 @@ func replay(test string, raw json.RawMessage) (string, string) {
 	}
 	v := variantByName(p.Variant)
 	ms, info := evalCase(p.Case, []variant{v})
-	if strings.HasPrefix(info.rejected, "panic:") && len(p.Case.Funcs) > 0 {
-		return fmt.Sprintf("wat2c-panic:op=%s/%s", p.Case.Funcs[0].Op, p.Case.Funcs[0].Shape), "wat2c panics instead of translating or returning an error: " + head(info.rejected, 300)
+	if strings.HasPrefix(info.rejected, "panic:") && len(p.Case.Funcs) >= 5 {
+		return fmt.Sprintf("op=%s/%s@wat2c-panic", p.Case.Funcs[len(p.Case.Funcs)-5].Op, p.Case.Funcs[len(p.Case.Funcs)-5].ShapeClass()), "wat2c panics instead of translating or returning an error: " + head(info.rejected, 300)
 	}
 	if len(ms) > 0 {
 		return ms[0].key, ms[0].what
